@@ -33,7 +33,7 @@ for p in PROPS:
     w(f"| {p} | {'; '.join(fire)} | {'; '.join(silent)} |")
 w("")
 w("### 11.3 Sub-agent mutants (`seeded/<id>/`: patch.diff, demo_test.go, notes.md, meta.json)\n")
-w("Each was confirmed in a scratch worktree (applies, builds, suite passes, demonstration fails with it and passes without it) and then applied to `/repo`, checked, and undone. Round 1 ids `-agent-`, round 2 `-agent2-`, round 3 `-agent3-`, round 4 `-agent4-`, round 5 `-agent5-`, round 6 `-agent6-`.\n")
+w("Each was confirmed in a scratch worktree (applies, builds, suite passes, demonstration fails with it and passes without it) and then applied to `/repo`, checked, and undone. Round 1 ids `-agent-`, round 2 `-agent2-`, round 3 `-agent3-`, round 4 `-agent4-`, round 5 `-agent5-`, round 6 `-agent6-`, round 7 `-agent7-` (small local slips).\n")
 w("| id | change | reported by | history |")
 w("|---|---|---|---|")
 for d in sorted(glob.glob(os.path.join(V, "seeded", "*"))):
@@ -42,7 +42,7 @@ for d in sorted(glob.glob(os.path.join(V, "seeded", "*"))):
         continue
     m = json.load(open(mp))
     b = (m.get("breaks") or [""])[0].lstrip("# ").strip().replace("|", "/")
-    b = re.sub(r"^C\d\d\s*(r[23456]\s*)?mutant\s*\d\s*[-—–:]*\s*", "", b, flags=re.I)
+    b = re.sub(r"^C\d\d\s*(r[234567]\s*)?mutant\s*\d\s*[-—–:]*\s*", "", b, flags=re.I)
     rules = []
     for l in m.get("check_report", []):
         mm = re.search(r"(C\d\d\.\w+) violated", l)
